@@ -44,11 +44,12 @@ const (
 	OpStep // returns global step counter without being a scheduling point
 	OpTrySend
 	OpTryRecv
+	OpSetClock // harness: set the virtual clock to arg (not a scheduling point)
 	OpSendWait // internal: sender committed and blocked in the channel
 	OpRecvWait // internal: receiver committed and blocked in the channel
 )
 
-var opNames = [...]string{"start", "done", "lock", "lockwait", "unlock", "rlock", "runlock", "send", "recv", "resume", "close", "yield", "now", "choose", "choosefree", "spawn", "step", "trysend", "tryrecv", "sendwait", "recvwait"}
+var opNames = [...]string{"start", "done", "lock", "lockwait", "unlock", "rlock", "runlock", "send", "recv", "resume", "close", "yield", "now", "choose", "choosefree", "spawn", "step", "trysend", "tryrecv", "setclock", "sendwait", "recvwait"}
 
 func (o Op) String() string { return opNames[o] }
 
@@ -151,6 +152,13 @@ func Yield(res uintptr) int64 {
 		return 0
 	}
 	return Point(t, OpYield, res, 0)
+}
+
+// SetClock sets the virtual clock from a controlled thread (harness use).
+func SetClock(v int64) {
+	if t := Cur(); t >= 0 {
+		Point(t, OpSetClock, 0, v)
+	}
 }
 
 // Step returns the global step counter (monotone; total order of events).
@@ -506,6 +514,9 @@ func (r *run) collect() {
 		case OpStep:
 			r.step++
 			batonGrant(int(m.tid), r.step)
+		case OpSetClock:
+			r.clock = m.arg
+			batonGrant(int(m.tid), 0)
 		case OpSpawn:
 			child := len(r.thr)
 			if child >= MaxThreads {
